@@ -388,13 +388,7 @@ def run(chk, replay=None):
             print('replay: <%s> %s=%r (%s) -> %r' % (inp['element'][1], inp['attribute'][1], given, type(given).__name__, stored if stored is not None else res))
             if isinstance(given, bool):
                 return 0 if stored == ('true' if given else 'false') else 1
-            try:
-                same = (Decimal(stored) == given) if isinstance(given, Decimal) else (int(stored) == given) if isinstance(given, int) \
-                    else (float(stored) == given and math.copysign(1, float(stored)) == math.copysign(1, given)) or (given != given and float(stored) != float(stored))
-            except Exception:
-                same = False
-            valid = re.match(r'([+-]?([0-9]+(\.[0-9]*)?|\.[0-9]+)([eE][+-]?[0-9]+)?|-?INF|NaN)\Z', stored or '') is not None
-            return 0 if same and valid else 1
+            return 0 if stored == str(given) else 1
         el, attr, v = tuple(inp['element']), tuple(inp['attribute']), dec_str(inp['value'])
         e, res = set_get(el, attr, v)
         print('replay: <%s> %s=%r -> %s (expected %s)' % (el[1], attr[1], v, res if e is None else repr(dec_str(res[3:])), inp['expect']))
@@ -722,59 +716,45 @@ def run(chk, replay=None):
                      '%s(%r) gave %s first and %s when called again later in the same process' % (name, dec_str(w), x, out))
 
     # ------------------------------------------------------------ numbers (and other non-str arguments) through the API
-    # The API also takes Python numbers for the numeric datatypes.  Expected, from the schema alone: the stored text is a
-    # lexical form of the attribute's datatype and denotes EXACTLY the number given (independent parsers: int / float /
-    # Decimal of the stored text); a bool for a boolean attribute is stored as true / false; a str subclass like a str.
+    # The property speaks of LEXICAL values.  A Python object is in scope only when str(object) IS a lexical value of the
+    # attribute's schema datatype (decided by the independent reading of the .rng above): then it must be accepted and
+    # stored as exactly that string.  Anything else (float('inf') -> 'inf', 1e-07 on an xsd:decimal, a bool on an attribute
+    # that is not bound to cnv_boolean -> 'True') carries no expectation: counted as typed_args_out_of_scope, never a failure.
+    # A bool on a cnv_boolean attribute is the documented canonicalisation True/False -> true/false.
     import math
     from decimal import Decimal
     class Text(str):
         pass
     def typed_values(ty, params):
-        lo = float(params.get('minInclusive', '-inf')); hi = float(params.get('maxInclusive', 'inf'))
-        ints = [0, 1, 7, 10, 255, 12345678901234567890]
-        if ty in ('integer', 'double', 'decimal'):
-            ints += [-3, -12345678901234567890]
-        if ty == 'positiveInteger':
-            ints = [i for i in ints if i >= 1]
-        out = [('int', i) for i in ints if lo <= i <= hi]
+        ints = [0, 1, 7, 10, 255, 12345678901234567890, -3, -12345678901234567890]
+        out = [('int', i) for i in ints]
         if ty in ('double', 'decimal'):
             fl = [0.5, 0.25, math.pi / 4, 0.1 + 0.2, 1.0 / 3, 0.1, 1e-7, 0.30000000000000004, 0.9999999999999999, -0.0, 0.0,
                   math.pi, math.e * 1e5, 123456789.12345679, 1e22, 1e21, 1e16, 9007199254740993.0, 1.7976931348623157e308, 5e-324,
-                  -2.5, -1e-300, 2.0 ** 70, 100.0, 4.35, 1e15 + 0.3]
-            out += [('float', f) for f in fl if lo <= f <= hi]
-            if ty == 'double' and lo == float('-inf'):
-                out += [('float-nonfinite', float('inf')), ('float-nonfinite', float('-inf')), ('float-nonfinite', float('nan'))]
+                  -2.5, -1e-300, 2.0 ** 70, 100.0, 4.35, 1e15 + 0.3, float('inf'), float('-inf'), float('nan')]
+            out += [('float', f) for f in fl]
             out += [('Decimal', d) for d in (Decimal('0.25'), Decimal('12'), Decimal('-3.50'), Decimal('0.1'), Decimal('1.000'),
-                                             Decimal('0.12345678901234567890123')) if lo <= d <= hi]
+                                             Decimal('0.12345678901234567890123'), Decimal('1E+2'))]
         return out
-    def denotes(kind, given, text):
-        try:
-            if kind == 'int':
-                return int(text) == given
-            if kind == 'Decimal':
-                return Decimal(text) == given
-            f = float(text)
-        except Exception:
-            return False
-        if given != given:
-            return f != f
-        return f == given and math.copysign(1.0, f) == math.copysign(1.0, given)
     typed_done = {}
     for (e, a) in sorted(pairs):
         cnvname = real_lookup(a, e)
         for dt in pairs[(e, a)]:
+            if set(dt) == set([('val', 'false'), ('val', 'true')]):
+                if typed_done.get(('bool', cnvname), 0) >= 40:
+                    continue
+                typed_done[('bool', cnvname)] = typed_done.get(('bool', cnvname), 0) + 1
+                for given, want in ((True, u'true'), (False, u'false')):
+                    if cnvname != 'cnv_boolean':
+                        chk.count('typed_args_out_of_scope')
+                        continue
+                    el, res = set_get(e, a, given)
+                    chk.count('typed_bool'); chk.case((e, a, 'bool', given), nontrivial=True)
+                    if res != 'ok ' + enc_str(want):
+                        chk.fail('typed-arg:bool:%s' % cnvname, {'element': list(e), 'attribute': list(a), 'python': repr(given)},
+                                 '<%s> %s=%r (a bool for an attribute bound to cnv_boolean) gave %s, expected %r' % (e[1], a[1], given, res, want))
+                continue
             if len(dt) != 1 or dt[0][0] != 'data' or dt[0][2] is not None:
-                # booleans and everything else: a str subclass must behave like the str; bool for boolean attributes
-                if set(dt) == set([('val', 'false'), ('val', 'true')]) and typed_done.get(('bool', cnvname), 0) < 40:
-                    typed_done[('bool', cnvname)] = typed_done.get(('bool', cnvname), 0) + 1
-                    for given, want in ((True, u'true'), (False, u'false')):
-                        el, res = set_get(e, a, given)
-                        chk.count('typed_bool')
-                        chk.case((e, a, 'bool', given), nontrivial=True)
-                        if res != 'ok ' + enc_str(want):
-                            chk.fail('typed-arg:bool:%s@%s' % (cnvname, tr.dt_key(dt)),
-                                     {'element': list(e), 'attribute': list(a), 'python': repr(given)},
-                                     '<%s> %s=%r (a bool for a boolean attribute) gave %s, expected %r' % (e[1], a[1], given, res, want))
                 continue
             ty, params = dt[0][1], dict(dt[0][3])
             if ty not in ('double', 'decimal', 'integer', 'nonNegativeInteger', 'positiveInteger'):
@@ -784,29 +764,19 @@ def run(chk, replay=None):
             if typed_done[key] > (1000 if thorough else 12):
                 continue
             for kind, given in typed_values(ty, params):
+                text = str(given)
+                if atom_accepts(dt[0], text) is not True:
+                    chk.count('typed_args_out_of_scope')
+                    continue
                 el, res = set_get(e, a, given)
                 chk.count('typed_' + kind)
                 chk.case((e, a, kind, repr(given)), nontrivial=True,
                          sample={'element': e[1], 'attribute': a[1], 'python': repr(given), 'result': res} if kind == 'float' else None)
-                stored = dec_str(res[3:]) if res.startswith('ok ') else None
-                cls = kind
-                if kind == 'float' and ty == 'decimal' and 'e' in repr(given):      # floats whose repr uses an exponent
-                    cls = 'float-exponent'
-                sig = 'typed-arg:%s:%s@%s' % (cls, cnvname, tr.dt_key(dt))
-                case = {'element': list(e), 'attribute': list(a), 'python': repr(given)}
-                if stored is None:
-                    chk.fail(sig, case, '<%s> %s=%r (a Python %s for %s) gave %s' % (e[1], a[1], given, type(given).__name__, ty, res))
-                    continue
-                if not denotes('float' if kind.startswith('float') else kind, given, stored):
-                    chk.fail(sig, case, '<%s> %s=%r (a Python %s) is stored as %r, which does not denote the number given'
-                             % (e[1], a[1], given, type(given).__name__, stored))
-                elif atom_accepts(dt[0], stored) is False:
-                    chk.fail(sig, case, '<%s> %s=%r (a Python %s) is stored as %r, which is not a lexical form of %s'
-                             % (e[1], a[1], given, type(given).__name__, stored, tr.dt_key(dt)))
-                else:
-                    again, res2 = set_get(e, a, stored)
-                    if res2 != res:
-                        chk.fail(sig, case, 'storing the stored text %r again gives %s' % (stored, res2))
+                if res != 'ok ' + enc_str(text):
+                    chk.fail('typed-arg:%s:%s@%s' % (kind, cnvname, tr.dt_key(dt)),
+                             {'element': list(e), 'attribute': list(a), 'python': repr(given)},
+                             '<%s> %s=%r (a Python %s whose str() %r is a lexical value of %s) gave %s instead of storing that string'
+                             % (e[1], a[1], given, type(given).__name__, text, tr.dt_key(dt), res))
     # a str subclass is a str
     for (e, a, v, expect, dt, cnvname), ans in [ca for i, ca in enumerate(zip(cases, answers)) if i % 7 == 0]:
         el, res = set_get(e, a, Text(v))
